@@ -80,6 +80,7 @@ def main():
     fs.put("/sim/src/%s/%s.py" % (pid, p["module"]), p["src"])
   loaders = {}
   junk = []
+  native_junk = []
   probes = {"gc_collect": 0, "gc_freeze": 0, "gc_threshold_set": 0,
             "clock_jumps": 0, "junk_allocs": 0, "reused_loader": 0,
             "reused_loader_had_cached_module": 0, "deps_built": 0,
@@ -114,50 +115,27 @@ def main():
                       "pyi_text": r["pyi"]})
     return out
 
-  for ri, req in enumerate(job["history"]):
-    # ---- perturbations between requests ------------------------------------
-    pert = req.get("pert", {})
-    if clock is not None and pert.get("clock_jump"):
-      clock.jump(pert["clock_jump"])
-      sim_time += pert["clock_jump"]
-      probes["clock_jumps"] += 1
-    if pert.get("gc_threshold"):
-      gc.set_threshold(*pert["gc_threshold"])
-      probes["gc_threshold_set"] += 1
-    if pert.get("gc_collect"):
-      gc.collect()
-      probes["gc_collect"] += 1
-    if pert.get("gc_freeze"):
-      gc.freeze()
-      probes["gc_freeze"] += 1
-    if pert.get("gc_disable"):
-      gc.disable()
-    elif pert.get("gc_enable"):
-      gc.enable()
-    if pert.get("junk"):
-      jr = random.Random(pert["junk"])
-      n = jr.randrange(100, 20000)
-      blob = [({"k%d" % i: [i] * jr.randrange(1, 5)}, "s%d" % i, (i, str(i)))
-              for i in range(n)]
-      if jr.random() < 0.5:
-        junk.append(blob[:: jr.randrange(1, 7)])
-      del blob
-      probes["junk_allocs"] += 1
-
+  def serve(ri, req):
     kind = req["kind"]
     if kind == "builtins":
       out = "/sim/out/builtins_%d.pickled" % ri
-      with simfs.Installed(fs, runner=False):
-        opts = anacore.make_options(fs, "/sim/dummy.py", module_name="main",
-                                    pythonpath="")
-        ldr = m["load_pytd"].create_loader(opts)
-        for mod in req.get("preload", []):
-          ldr.import_name(mod)
-        ldr.save_to_pickle(out)
-      data = fs.files[out]
-      responses.append({"req": ri, "key": req["key"], "pickle": sha(data),
-                        "pickle_len": len(data)})
-      continue
+      try:
+        with simfs.Installed(fs, runner=False):
+          opts = anacore.make_options(fs, "/sim/dummy.py", module_name="main",
+                                      pythonpath="")
+          ldr = m["load_pytd"].create_loader(opts)
+          for mod in req.get("preload", []):
+            ldr.import_name(mod)
+          ldr.save_to_pickle(out)
+        data = fs.files[out]
+        responses.append({"req": ri, "key": req["key"], "pickle": sha(data),
+                          "pickle_len": len(data), "crash_msg": None})
+      except Exception as ex:  # pylint: disable=broad-except
+        import traceback
+        responses.append({"req": ri, "key": req["key"], "pickle": None,
+                          "crash_msg": str(ex).split("\n")[0],
+                          "crash": traceback.format_exc()[-2000:]})
+      return
 
     p = programs[req["prog"]]
     src_path = "/sim/src/%s/%s.py" % (req["prog"], p["module"])
@@ -256,6 +234,68 @@ def main():
       if r.get("errors") is not None:
         resp["error_texts"] = [e["text"] for e in r["errors"]]
     responses.append(resp)
+
+
+  for ri, req in enumerate(job["history"]):
+    # ---- perturbations between requests ------------------------------------
+    pert = req.get("pert", {})
+    if clock is not None and pert.get("clock_jump"):
+      clock.jump(pert["clock_jump"])
+      sim_time += pert["clock_jump"]
+      probes["clock_jumps"] += 1
+    if pert.get("gc_threshold"):
+      gc.set_threshold(*pert["gc_threshold"])
+      probes["gc_threshold_set"] += 1
+    if pert.get("gc_collect"):
+      gc.collect()
+      probes["gc_collect"] += 1
+    if pert.get("gc_freeze"):
+      gc.freeze()
+      probes["gc_freeze"] += 1
+    if pert.get("gc_disable"):
+      gc.disable()
+    elif pert.get("gc_enable"):
+      gc.enable()
+    if pert.get("native_junk"):
+      # fragment the C++ heap: typegraph objects are malloc'ed, so later
+      # Programs get non-monotonic addresses
+      from pytype.typegraph import cfg as _cfg
+      jr = random.Random(pert["native_junk"])
+      progs = []
+      for _ in range(jr.randrange(2, 8)):
+        pr = _cfg.Program()
+        ns = [pr.NewCFGNode("j") for _ in range(jr.randrange(5, 200))]
+        vs_ = []
+        for i in range(jr.randrange(5, 300)):
+          v = pr.NewVariable()
+          v.AddBinding("d%d" % (i % 7), [], ns[i % len(ns)])
+          vs_.append(v)
+        progs.append((pr, ns, vs_))
+      jr.shuffle(progs)
+      keep = progs[: jr.randrange(0, len(progs))]
+      del progs
+      native_junk.append(keep)
+      if len(native_junk) > 3:
+        native_junk.pop(jr.randrange(len(native_junk)))
+      probes["native_junk"] = probes.get("native_junk", 0) + 1
+    if pert.get("junk"):
+      jr = random.Random(pert["junk"])
+      n = jr.randrange(100, 20000)
+      blob = [({"k%d" % i: [i] * jr.randrange(1, 5)}, "s%d" % i, (i, str(i)))
+              for i in range(n)]
+      if jr.random() < 0.5:
+        junk.append(blob[:: jr.randrange(1, 7)])
+      del blob
+      probes["junk_allocs"] += 1
+
+    try:
+      serve(ri, req)
+    except Exception as ex:  # pylint: disable=broad-except
+      # anything escaping a request is recorded as that request's response
+      import traceback
+      responses.append({"req": ri, "key": req["key"],
+                        "crash_msg": str(ex).split("\n")[0],
+                        "crash": traceback.format_exc()[-2500:]})
 
   probes["clock_reads"] = clock.reads if clock else 0
   json.dump({"responses": responses, "probes": probes, "sim_time": sim_time,
